@@ -1,0 +1,29 @@
+//go:build verif
+
+// Contracts for package platform, read by /verif/govc (contract-based deductive verification).
+// This file contains comments only; it adds no code to any build.
+
+package platform
+
+// ---- C17: every advertised platform name resolves to an embedded definition ------------------------------
+
+//@ func loadPlatformDefinitionFromAssets [C17]
+//@   pure
+//@   ensures #reads-the-named-asset (result.1 == nil) <==> embedded("platforms/" ++ (hasSuffix(f, ".yaml") ? f : f ++ ".yaml"))
+
+// one obligation per advertised name (the list literal is expanded element by element)
+//@ func GetPlatformNames [C17]
+//@   pure
+//@   ensures #advertised-name-has-an-asset forall i int :: 0 <= i && i < len(result) ==> embedded("platforms/" ++ result[i] ++ ".yaml")
+
+// a variant replaces exactly the sections it defines and leaves everything else of the base definition alone
+//@ func (*Platform).mergeVariant [C17]
+//@   modifies p.DriverType, p.FailedWhenContains, p.OnOpen, p.OnClose, p.PrivilegeLevels, p.DefaultDesiredPrivilegeLevel, p.NetworkOnOpen, p.NetworkOnClose
+//@   ensures #driver-type p.DriverType == (v.DriverType != "" ? v.DriverType : old(p.DriverType))
+//@   ensures #failed-when-contains p.FailedWhenContains == (len(v.FailedWhenContains) > 0 ? v.FailedWhenContains : old(p.FailedWhenContains))
+//@   ensures #on-open p.OnOpen == (len(v.OnOpen) > 0 ? v.OnOpen : old(p.OnOpen))
+//@   ensures #on-close p.OnClose == (len(v.OnClose) > 0 ? v.OnClose : old(p.OnClose))
+//@   ensures #network-on-open p.NetworkOnOpen == (len(v.NetworkOnOpen) > 0 ? v.NetworkOnOpen : old(p.NetworkOnOpen))
+//@   ensures #network-on-close p.NetworkOnClose == (len(v.NetworkOnClose) > 0 ? v.NetworkOnClose : old(p.NetworkOnClose))
+//@   ensures #privilege-levels p.PrivilegeLevels == (len(v.PrivilegeLevels) > 0 ? v.PrivilegeLevels : old(p.PrivilegeLevels))
+//@   ensures #default-priv p.DefaultDesiredPrivilegeLevel == (v.DefaultDesiredPrivilegeLevel != "" ? v.DefaultDesiredPrivilegeLevel : old(p.DefaultDesiredPrivilegeLevel))
